@@ -1226,6 +1226,12 @@ func init() {
 			g := e.get(env.state(), "ghost:sends", Arr(RefS, BV64))
 			return &SVal{K: KScalar, Typ: types.Typ[types.Int], T: e.c.Select(g, e.c.NilRef())}
 		},
+		"lastSendFailed": func(env *Env, n *ast.CallExpr, args []*SVal) *SVal {
+			// the most recent transport.Send returned an error
+			e := env.e
+			g := e.get(env.state(), "ghost:sends", Arr(RefS, BV64))
+			return env.mkBool(e.c.Eq(e.c.Select(g, e.c.Sub(e.c.NilRef(), 1)), e.c.BVLit(1, 64)))
+		},
 		"metric": func(env *Env, n *ast.CallExpr, args []*SVal) *SVal {
 			e := env.e
 			if t := args[0].T; t.Op == "app" && t.Name == "metricChild" {
@@ -1235,6 +1241,32 @@ func init() {
 			}
 			g := e.get(env.state(), "ghost:metric", Arr(RefS, BV64))
 			return &SVal{K: KScalar, Typ: types.Typ[types.Int], T: e.c.Select(g, args[0].T)}
+		},
+		"ctxChildOf": func(env *Env, n *ast.CallExpr, args []*SVal) *SVal {
+			// ctxChildOf(c, p): c was derived from p by context.WithTimeout (it has a deadline and is done whenever p is)
+			c := env.e.c
+			return env.mkBool(c.And(c.Eq(c.App("ctxParent", RefS, args[0].T), args[1].T), c.App("ctxHasDeadline", BoolS, args[0].T)))
+		},
+		"backoffBoundTo": func(env *Env, n *ast.CallExpr, args []*SVal) *SVal {
+			// backoffBoundTo(b, ctx): b is backoff.WithContext(_, ctx): it stops retrying once ctx is done
+			c := env.e.c
+			return env.mkBool(c.Eq(c.App("backoffCtx", RefS, args[0].T), args[1].T))
+		},
+		"ctxHasDeadline": func(env *Env, n *ast.CallExpr, args []*SVal) *SVal {
+			return env.mkBool(env.e.c.App("ctxHasDeadline", BoolS, args[0].T))
+		},
+		"socketDeadlineIs": func(env *Env, n *ast.CallExpr, args []*SVal) *SVal {
+			// socketDeadlineIs(conn, "Write"|"Read", ctx): the socket's deadline of that kind is ctx's deadline
+			e := env.e
+			c := e.c
+			kind := ""
+			if cv, ok := env.info.Types[n.Args[1]]; ok && cv.Value != nil {
+				kind = constant.StringVal(cv.Value)
+			}
+			s1 := e.get(env.state(), "ghost:deadline"+kind+"#sec", Arr(RefS, BV64))
+			s2 := e.get(env.state(), "ghost:deadline"+kind+"#nsec", Arr(RefS, BV64))
+			sock := c.Sub(args[0].T, 0) // the net.conn embedded in the *net.UDPConn, on which the deadline methods are declared
+			return env.mkBool(c.And(c.Eq(c.Select(s1, sock), c.App("ctxDeadlineSec", BV64, args[2].T)), c.Eq(c.Select(s2, sock), c.App("ctxDeadlineNsec", BV64, args[2].T))))
 		},
 		"hasKey": func(env *Env, n *ast.CallExpr, args []*SVal) *SVal {
 			// hasKey(m, k): the map has an entry for key k
@@ -2274,6 +2306,17 @@ func (e *Encoder) restoreFrame(fr *frame, pre *State, args []*SVal) {
 			continue
 		}
 		if pt, ok := v.Typ.Underlying().(*types.Pointer); ok {
+			objs = append(objs, trackedObj{v.T, pt.Elem()})
+		}
+	}
+	// captured variables of a closure under verification: only the closure and its enclosing function
+	// (which is not running) can name the cell
+	for _, fv := range top.fn.FreeVars {
+		v := top.vals[fv]
+		if v == nil || v.K != KPtr {
+			continue
+		}
+		if pt, ok := fv.Type().Underlying().(*types.Pointer); ok {
 			objs = append(objs, trackedObj{v.T, pt.Elem()})
 		}
 	}
